@@ -47,13 +47,30 @@ func Geom(s *exact.Shape, e Enc) geometry.Geometry {
 	case exact.KRect:
 		return geometry.Rect{Min: Pt(s.Min, e.Scale), Max: Pt(s.Max, e.Scale)}
 	case exact.KLine:
-		return geometry.NewLine(Pts(s.Line, e.Scale), e.Opts())
+		pts := Pts(s.Line, e.Scale)
+		l := geometry.NewLine(pts, e.Opts())
+		Scribble(pts)
+		return l
 	}
 	var hs [][]geometry.Point
 	for _, h := range s.Holes {
 		hs = append(hs, Pts(h, e.Scale))
 	}
-	return geometry.NewPoly(Pts(s.Ext, e.Scale), hs, e.Opts())
+	ext := Pts(s.Ext, e.Scale)
+	p := geometry.NewPoly(ext, hs, e.Opts())
+	Scribble(ext)
+	for _, h := range hs {
+		Scribble(h)
+	}
+	return p
+}
+
+// Scribble overwrites a slice that was handed to a constructor: the constructed object must not
+// share it (a caller is free to reuse its buffer once the constructor has returned).
+func Scribble(pts []geometry.Point) {
+	for i := range pts {
+		pts[i] = geometry.Point{X: 12345.678 + float64(i), Y: -9876.5}
+	}
 }
 
 // Obj builds the GeoJSON-level object; variant selects alternative representations:
